@@ -1,14 +1,123 @@
 (* Properties_C07.v — C07: non-idempotent requests are not resent after reaching the origin.
-   Statements only; proofs live in RetryProofs.v. *)
+   Statements only; proofs live in RetryProofs.v. The machine (RetryModel.v) is the FwdState attempt logic of
+   src/FwdState.cc; `run c r init evs` executes it over an arbitrary list of environment events and returns the
+   final state and the trace; `sends` counts dispatch()es (the request being written on a connection) and
+   `reforwards` counts the times FwdState::complete() found reforward() true. isHttpSafe/isIdempotent and
+   Http::IsReforwardableStatus come from gen/RetryMethods_gen.v, regenerated from the code on every run. *)
 Require Import List NArith Bool.
 Require Import SquidV.Bytes SquidV.RetryModel SquidV.RetryProofs.
 Require Import SquidV.gen.RetryMethods_gen.
 Import ListNotations.
 Local Open Scope N_scope.
 
+(* POST and extension methods -- PATCH is one in this tree -- are neither safe nor idempotent according to the code *)
 Theorem C07_post_and_extension_methods_are_nonidempotent :
   method_safe rm_METHOD_POST = false /\ method_idem rm_METHOD_POST = false /\
   method_safe rm_METHOD_OTHER = false /\ method_idem rm_METHOD_OTHER = false /\
-  rm_ext_is_other = true /\ rm_ext_attrs = (false, false).
+  rm_ext_is_other = true /\ rm_ext_attrs = (false, false) /\
+  method_of_image rm_methods [80;65;84;67;72] = rm_METHOD_OTHER /\
+  method_of_image rm_methods [80;79;83;84] = rm_METHOD_POST.
 Proof. exact post_and_other_nonidempotent. Qed.
 Print Assumptions C07_post_and_extension_methods_are_nonidempotent.
+
+(* For every configuration, every request whose method is neither safe nor idempotent, and EVERY sequence of events
+   (destinations arriving at any time, idle pconns, connect failures, zero-size replies, read/write errors, timeouts,
+   truncated headers, cut bodies, the pconn race, pinned connections, aborts, shutdown, time running out): the request
+   is written on a connection at most once, plus once for every reforward() decision taken on a received reply. *)
+Theorem C07_nonidempotent_sent_at_most_once_per_reforward : forall c r evs,
+  method_safe (r_method r) = false -> method_idem (r_method r) = false ->
+  sends (snd (run c r init evs)) <= 1 + reforwards (snd (run c r init evs)).
+Proof. exact no_resend_nonidempotent_method. Qed.
+Print Assumptions C07_nonidempotent_sent_at_most_once_per_reforward.
+
+(* the same for any request that carries a body, whatever its method *)
+Theorem C07_request_with_body_sent_at_most_once_per_reforward : forall c r evs,
+  r_body r = true ->
+  sends (snd (run c r init evs)) <= 1 + reforwards (snd (run c r init evs)).
+Proof. exact no_resend_with_body. Qed.
+Print Assumptions C07_request_with_body_sent_at_most_once_per_reforward.
+
+(* The property for connection failures (partial: see the refutation below): along every event sequence in which no
+   reply header with a re-forwardable status (502, 504; with retry_on_error also 403, 500, 501, 503) is received, a
+   request that checkRetriable() rejects -- method neither safe nor idempotent, or a body present -- is written on a
+   connection AT MOST ONCE: no failure of any kind, on fresh or reused connections, on any path, makes squid send it again. *)
+Theorem C07_no_resend_after_connection_failure_partial : forall c r evs,
+  check_retriable r = false -> Forall (no_reforwardable_header c) evs ->
+  sends (snd (run c r init evs)) <= 1.
+Proof. exact at_most_one_send. Qed.
+Print Assumptions C07_no_resend_after_connection_failure_partial.
+
+Theorem C07_nonidempotent_method_is_not_retriable : forall r,
+  method_safe (r_method r) = false -> method_idem (r_method r) = false -> check_retriable r = false.
+Proof. exact nonidempotent_not_retriable. Qed.
+Print Assumptions C07_nonidempotent_method_is_not_retriable.
+
+(* The full statement -- "sent at most once whenever the connection fails after squid began sending" -- is FALSE for the
+   code as it is: a body-less POST whose first attempt receives a 502 header and then loses the connection in the body
+   (no reply is ever received completely) is written again on the next path. *)
+Theorem C07_resend_after_truncated_reply_refuted :
+  exists c r evs,
+    r_method r = rm_METHOD_POST /\ check_retriable r = false /\
+    Forall (fun e => e <> EvComplete false) evs /\
+    sends (snd (run c r init evs)) = 2.
+Proof. exact resend_after_truncated_reply_witness. Qed.
+Print Assumptions C07_resend_after_truncated_reply_refuted.
+
+(* once request body bytes were consumed (bodyNibbled), nothing that happens later makes squid send the request
+   again -- not even a re-forwardable reply *)
+Theorem C07_no_send_after_body_consumed : forall c r evs1 evs2,
+  s_nibbled (fst (run c r init evs1)) = true ->
+  sends (snd (run c r init (evs1 ++ evs2))) = sends (snd (run c r init evs1)) /\
+  reforwards (snd (run c r init (evs1 ++ evs2))) = reforwards (snd (run c r init evs1)).
+Proof. exact no_send_after_body_consumed. Qed.
+Print Assumptions C07_no_send_after_body_consumed.
+
+(* the closed loop that the correspondence run executes against the real squid is `run` on the events it reports *)
+Theorem C07_drive_is_run : forall fuel c r en s s' tr evs okf,
+  drive fuel c r en s = (s', tr, evs, okf) -> run c r s evs = (s', tr).
+Proof. exact drive_is_run. Qed.
+Print Assumptions C07_drive_is_run.
+
+(* ----- non-vacuity ----- *)
+(* a failed connect sends nothing; the POST (with body) still goes out, once, on the next path *)
+Theorem C07_post_sent_once_after_refused_connect :
+  check_retriable req_post_body = false /\
+  snd (run cfg_default req_post_body init
+         [EvNewDest; EvNewDest; EvDestsEnd; EvConn false false false; EvConn false true false;
+          EvBodyConsumed; EvHeaders 200; EvComplete false]) = [OSend 1 false].
+Proof. exact post_after_refused_connect. Qed.
+Print Assumptions C07_post_sent_once_after_refused_connect.
+
+(* safe methods may be retried: GET goes to the second path after a zero-size reply on the first ... *)
+Theorem C07_safe_method_retried_on_other_path :
+  check_retriable req_get = true /\
+  snd (run cfg_default req_get init
+         [EvNewDest; EvNewDest; EvDestsEnd; EvConn false true false; EvFail FZero; EvConn false true false;
+          EvHeaders 200; EvComplete false]) = [OSend 0 false; OSend 1 false].
+Proof. exact get_retried_on_other_path. Qed.
+Print Assumptions C07_safe_method_retried_on_other_path.
+
+(* ... and after a persistent-connection race on the same, reinstated path, over a fresh connection; a POST put on a
+   reused connection by server_pconn_for_nonretriable is not *)
+Theorem C07_pconn_race_retry_only_for_retriable :
+  snd (run cfg_default req_get init
+         [EvNewDest; EvDestsEnd; EvConn true true false; EvFail FZero; EvConn false true false;
+          EvHeaders 200; EvComplete false]) = [OSend 0 true; OSend 0 false] /\
+  snd (run (mkCfg 25 true false) req_post_nobody init
+         [EvNewDest; EvDestsEnd; EvConn true true false; EvFail FZero; EvConn false true false;
+          EvHeaders 200; EvComplete false]) = [OSend 0 true].
+Proof. exact pconn_race_examples. Qed.
+Print Assumptions C07_pconn_race_retry_only_for_retriable.
+
+Example C07_partial_hypotheses_satisfiable :
+  check_retriable req_post_nobody = false /\
+  Forall (no_reforwardable_header cfg_default)
+    [EvNewDest; EvNewDest; EvDestsEnd; EvConn false true false; EvFail FZero; EvConn false true false] /\
+  sends (snd (run cfg_default req_post_nobody init
+    [EvNewDest; EvNewDest; EvDestsEnd; EvConn false true false; EvFail FZero; EvConn false true false])) = 1.
+Proof. split; [vm_compute; reflexivity|]. split; [repeat constructor | vm_compute; reflexivity]. Qed.
+
+Example C07_body_consumed_reachable :
+  s_nibbled (fst (run cfg_default req_post_body init
+    [EvNewDest; EvDestsEnd; EvConn false true false; EvBodyConsumed])) = true.
+Proof. vm_compute; reflexivity. Qed.
